@@ -37,7 +37,9 @@ def upper_jobs_with_online(ctx, rel):
 
 def upper_freeze_jobs(ctx, rel):
     runs = "2" if ctx.quick else "30"
-    return [["--api", "upper", "--mode", "freeze", "--scenario", "all", "--runs", runs, "--seed", str(ctx.seed), "--budget", "2000"]]
+    return [["--api", "upper", "--mode", "freeze", "--scenario", "all", "--runs", runs, "--seed", str(ctx.seed), "--budget", "2000"],
+            # C21's space is C01's: concurrent tree changes included (the proven bound covers the fetch_free loads of Online)
+            ["--api", "upper", "--mode", "freeze", "--scenario", "online-race", "--runs", runs, "--seed", str(ctx.seed), "--budget", "2000"]]
 
 
 def run_conc(ctx, TAG, jobs=upper_jobs):
